@@ -35,6 +35,28 @@ fn close_vec(a: &[f32], r: &[f64], rel: f64, abs: f64) -> Option<String> {
  * ------------------------------------------------------------------------------------------ */
 
 pub fn net_oracles_build(ctx: &mut Ctx, spec: &NetSpec, built: &Result<Network, String>) {
+    // C16: a connection that is REFUSED leaves no trace — the network it was asked of goes on exactly like the network that
+    // was never asked (same recorded connections, same predictions)
+    if is(ctx, &["C16"]) && built.is_err() && spec.builds.iter().filter(|b| matches!(b, Build::Connect(..))).count() >= 2 {
+        if let Ok((tol_net, refused)) = net::build_inner(spec, false, true) {
+            if !refused.is_empty() {
+                let mut spec2 = spec.clone();
+                spec2.builds = spec.builds.iter().enumerate().filter(|(i, _)| !refused.contains(i)).map(|(_, b)| b.clone()).collect();
+                // (the position-parity rule for when the accumulations are configured is kept by configuring explicitly)
+                if let Ok(plain) = net::build(&spec2) {
+                    let mut a: Vec<(usize, usize)> = tol_net.connect.iter().map(|(k, v)| (*k, *v)).collect();
+                    let mut b: Vec<(usize, usize)> = plain.connect.iter().map(|(k, v)| (*k, *v)).collect();
+                    a.sort(); b.sort();
+                    let x = net::warm_input(&spec.input);
+                    let (pa, pb) = (net::try_run(|| tol_net.predict(&x)), net::try_run(|| plain.predict(&x)));
+                    let same_pred = match (&pa, &pb) { (Ok(p), Ok(q)) => bits_eq(p, q), (Err(_), Err(_)) => true, _ => false };
+                    ctx.oracle(a == b && same_pred, "refused-connection-left-a-trace",
+                        "a connect call that is rejected must leave the network as it was: the earlier connections are kept and nothing of the rejected one remains",
+                        format!("{} (refused calls at positions {:?})", clip(&spec.token(), 900), refused), format!("connections {:?}", a), format!("connections {:?}", b));
+                }
+            }
+        }
+    }
     if !is(ctx, &["C08", "C16", "C17", "C11"]) {
         return;
     }
@@ -376,6 +398,10 @@ pub fn net_oracles_predict(ctx: &mut Ctx, spec: &NetSpec, net: &Network, x: &Ten
             if next_dense {
                 ctx.oracle(matches!(act[i + 1].shape, Shape::Single(_)), "flatten-before-dense", "a spatial output feeding a dense layer must be flattened",
                     format!("layer {} of {}", i, desc), shape_tok(&act[i + 1].shape), "S n".into());
+            } else if i + 1 < net.layers.len() && matches!(outs, Shape::Triple(..)) && !matches!(l, Layer::Feedback(_)) {
+                // … and a spatial output that feeds another spatial layer is handed on as it was announced (not flattened)
+                ctx.oracle(act[i + 1].shape == outs, "produced-shape", "a spatial output that does not feed a dense layer must be handed on in the announced shape",
+                    format!("layer {} of {} (output handed on)", i, desc), shape_tok(&act[i + 1].shape), shape_tok(&outs));
             }
         }
     }
@@ -571,6 +597,31 @@ pub fn net_oracles_predict_batch(ctx: &mut Ctx, spec: &NetSpec, net: &Network, x
     }
 }
 
+/// the same network specification holding the parameters the (trained) network holds now
+pub fn spec_with_params_of(spec: &NetSpec, net: &Network) -> NetSpec {
+    fn refresh(s: &mut InnerSpec, l: &Layer) {
+        match (s, l) {
+            (InnerSpec::Dense { w, b, .. }, Layer::Dense(d)) => { *w = d.verif_weights().clone(); if b.is_some() { *b = d.verif_bias().clone(); } }
+            (InnerSpec::Conv { ks, .. }, Layer::Convolution(d)) => { *ks = d.verif_kernels().clone(); }
+            (InnerSpec::Deconv { ks, .. }, Layer::Deconvolution(d)) => { *ks = d.verif_kernels().clone(); }
+            _ => {}
+        }
+    }
+    let mut out = spec.clone();
+    let mut li = 0;
+    for b in out.builds.iter_mut() {
+        match b {
+            Build::Layer(s) => { if let Some(l) = net.layers.get(li) { refresh(s, l); } li += 1; }
+            Build::Feedback { inner, .. } => {
+                if let Some(Layer::Feedback(f)) = net.layers.get(li) { for (i, s) in inner.iter_mut().enumerate() { if let Some(l) = f.layers.get(i) { refresh(s, l); } } }
+                li += 1;
+            }
+            _ => {}
+        }
+    }
+    out
+}
+
 /// the same network specification with no dropout rate configured anywhere
 pub fn strip_dropout(spec: &NetSpec) -> NetSpec {
     let strip = |l: &InnerSpec| -> InnerSpec {
@@ -593,11 +644,12 @@ pub fn strip_dropout(spec: &NetSpec) -> NetSpec {
 }
 
 pub fn net_oracles_validate(ctx: &mut Ctx, spec: &NetSpec, net: &mut Network, xs: &Vec<Tensor>, ts: &Vec<Tensor>, tol: f32, train: bool, res: &Result<(f32, f32), String>) {
-    if is(ctx, &["C02", "C01", "C11", "C17", "C16"]) && !train && res.is_ok() && !xs.is_empty() {
+    if is(ctx, &["C02", "C01", "C11", "C17", "C16", "C12", "C09", "C08"]) && !train && res.is_ok() && !xs.is_empty() {
         // a stand-alone validate leaves the network what it was: predict is still the composition of the layers' operators
         // (no dropout mask), i.e. the prediction of the same network built without dropout
         let desc = format!("{} predict after validate on {} samples", clip(&spec.token(), 800), xs.len());
-        if let Ok(Ok(twin)) = net::try_run(|| net::build(&strip_dropout(spec))) {
+        // (the twin holds the parameters the network holds NOW: the network may have been trained before this call)
+        if let Ok(Ok(twin)) = net::try_run(|| net::build(&spec_with_params_of(&strip_dropout(spec), net))) {
             let a = net::try_run(|| net.predict(&xs[0]));
             let b = net::try_run(|| twin.predict(&xs[0]));
             if let (Ok(a), Ok(b)) = (&a, &b) {
@@ -814,6 +866,8 @@ pub fn net_oracles_learn(ctx: &mut Ctx, spec: &NetSpec, net: &Network, job: &Lea
         let budget = job.epochs.max(0) as usize;
         match &job.val {
             None => ctx.oracle(run == budget, "stops-without-validation", "without validation data all epochs must run", desc.clone(), run.to_string(), budget.to_string()),
+            // (the stopping rule is read off the validation losses: only when there is one per epoch run)
+            Some(_) if vl.len() != run => {}
             Some((_, _, thr)) => {
                 let t = *thr as usize;
                 let cond = |e: usize| -> bool {
